@@ -233,6 +233,16 @@ Proof.
           unfold cc_add; cbn [c_sent c_acked c_lost c_disc sum_bytes_on fold_right]; rewrite Hp; change (1 =? 1) with true; cbn match; f_equal; lia.
 Qed.
 
+Lemma single_remove_lost : forall ls M P C, single (remove_lost M P C ls) = single M.
+Proof. induction ls as [|x t IH]; intros M P C; cbn [remove_lost]; [reflexivity|]. rewrite IH. reflexivity. Qed.
+
+Lemma single_detect : forall m now c, single (fst (detect_and_remove m now c)) = single m.
+Proof.
+  intros m now c. unfold detect_and_remove. destruct (largest m) as [lg|]; [|reflexivity].
+  destruct (detect_walk m lg now c (sentp m) {| cur := None; maxd := 0 |}) as [[ls cc'] lt'].
+  cbn [fst]. rewrite single_remove_lost. reflexivity.
+Qed.
+
 (* detect_and_remove_lost_packets: the lost packets are a prefix of sent_packets; they leave the map
    and their bytes move to the lost column of their path *)
 Lemma detect_and_remove_ledger : forall m now cpath m' lost,
@@ -268,10 +278,11 @@ Record winv (m : mgr) : Prop := {
   w_path : on01 (sentp m);
   w_time : Forall (fun p => 1 <= p_time p) (sentp m);
   w_bif0 : bif (ccs (pa m)) = Nz (sum_bytes_on (sentp m) 0);
-  w_bif1 : bif (ccs (pb m)) = Nz (sum_bytes_on (sentp m) 1)
+  w_bif1 : bif (ccs (pb m)) = Nz (sum_bytes_on (sentp m) 1);
+  w_single : single m = true -> forall p, In p (sentp m) -> p_path p = 0
 }.
 
-Lemma winv_init : forall sp cf mad st, winv (minit sp cf mad st).
+Lemma winv_init : forall sp cf cl mad st, winv (minit sp cf cl mad st).
 Proof.
   intros. constructor; cbn [minit sentp largest lastpn pa pb ccs].
   - constructor.
@@ -281,14 +292,15 @@ Proof.
   - constructor.
   - reflexivity.
   - reflexivity.
+  - intros _ p [].
 Qed.
 
 (* operations that leave the ledger view untouched *)
 Lemma winv_same : forall m m', winv m ->
   sentp m' = sentp m -> largest m' = largest m -> lastpn m' = lastpn m ->
-  ccs (pa m') = ccs (pa m) -> ccs (pb m') = ccs (pb m) -> winv m'.
+  ccs (pa m') = ccs (pa m) -> ccs (pb m') = ccs (pb m) -> single m' = single m -> winv m'.
 Proof.
-  intros m m' [] E1 E2 E3 E4 E5. constructor; rewrite ?E1, ?E2, ?E3, ?E4, ?E5; assumption.
+  intros m m' [] E1 E2 E3 E4 E5 E6. constructor; rewrite ?E1, ?E2, ?E3, ?E4, ?E5, ?E6; assumption.
 Qed.
 
 Lemma winv_upt : forall m now, winv m -> winv (update_pto_timer m now).
@@ -314,10 +326,10 @@ Proof. intros. unfold sum_bytes_on. cbn [fold_right]. destruct (p_path p =? i); 
 
 (* on_packet_sent with a fresh, larger packet number *)
 Lemma winv_sent : forall m pn bytes ae time path, winv m ->
-  (forall l, lastpn m = Some l -> l < pn) -> 1 <= time -> (path = 0 \/ path = 1) ->
+  (forall l, lastpn m = Some l -> l < pn) -> 1 <= time -> (path = 0 \/ path = 1) -> (single m = true -> path = 0) ->
   winv (on_packet_sent m pn bytes ae time path).
 Proof.
-  intros m pn bytes ae time path [] Hpn Ht Hp.
+  intros m pn bytes ae time path [] Hpn Ht Hp Hsg.
   set (p := {| p_pn := pn; p_bytes := bytes; p_time := time; p_ae := ae; p_path := path |}).
   assert (Hfresh : forall q, In q (sentp m) -> p_pn q < pn).
   { intros q Hq. destruct (w_last0 q Hq) as (l & Hl & Hle). specialize (Hpn l Hl). lia. }
@@ -340,20 +352,23 @@ Proof.
   - rewrite sum_app, sum_single. cbn [p_path p_bytes]. destruct Hp as [-> | ->].
     + change (0 =? 0) with true. change (0 =? 1) with false. cbn match. rewrite w_bif3. unfold Nz. lia.
     + change (1 =? 0) with false. change (1 =? 1) with true. cbn match. rewrite get1, ccs_path_cc, bif_add, w_bif3. unfold Nz. lia.
+  - change (single (on_packet_sent m pn bytes ae time path)) with (single m).
+    intros Hs q Hq. apply in_app_iff in Hq as [Hq|[<-|[]]]; [auto|]. cbn [p_path]. auto.
 Qed.
 
-Lemma winv_sub : forall m m' f, winv m -> sentp m' = filter f (sentp m) -> lastpn m' = lastpn m ->
+Lemma winv_sub : forall m m' f, winv m -> single m' = single m -> sentp m' = filter f (sentp m) -> lastpn m' = lastpn m ->
   (forall lg, largest m' = Some lg ->
      (exists l, lastpn m = Some l /\ lg <= l) /\ (forall p, In p (sentp m') -> p_pn p <> lg)) ->
   bif (ccs (pa m')) = Nz (sum_bytes_on (sentp m') 0) ->
   bif (ccs (pb m')) = Nz (sum_bytes_on (sentp m') 1) -> winv m'.
 Proof.
-  intros m m' f [] Es El Hlg B0 B1. constructor; try assumption.
+  intros m m' f [] Esg Es El Hlg B0 B1. constructor; try assumption.
   - rewrite Es. apply sorted_filter. assumption.
   - intros p Hp. rewrite Es in Hp. apply filter_In in Hp as [Hp _]. rewrite El. auto.
   - intros lg Hl. rewrite El. auto.
   - unfold on01 in *. rewrite Es. rewrite Forall_forall in *. intros p Hp. apply filter_In in Hp as [Hp _]. auto.
   - rewrite Es. rewrite Forall_forall in *. intros p Hp. apply filter_In in Hp as [Hp _]. auto.
+  - rewrite Esg, Es. intros Hsg p Hp. apply filter_In in Hp as [Hp _]. auto.
 Qed.
 
 Lemma winv_detect : forall m now cpath, winv m -> winv (fst (detect_and_remove m now cpath)).
@@ -363,7 +378,7 @@ Proof.
   destruct (detect_and_remove_ledger _ _ _ _ _ w_sorted0 w_path0 E) as (ls & Hs & _ & Hl & Hp & _ & _ & C0 & C1).
   assert (Ef : sentp m' = filter (fun q => negb (in_list (p_pn q) ls)) (sentp m)).
   { rewrite Hs at 1. rewrite filter_prefix; [reflexivity|]. rewrite <- Hs. assumption. }
-  apply (winv_sub m m' _ W Ef Hp).
+  apply (winv_sub m m' _ W ltac:(rewrite <- (single_detect m now cpath), E; reflexivity) Ef Hp).
   - intros lg Hlg. rewrite Hl in Hlg. destruct (w_lg0 lg Hlg) as [H1 H2]. split; [assumption|].
     intros p Hin. apply H2. rewrite Hs. apply in_app_iff. right. assumption.
   - rewrite C0, bif_add, w_bif2, Hs, sum_app. unfold Nz. lia.
